@@ -186,7 +186,7 @@ var propFuncs = map[string][]string{
 		`^\(\*http2\.responseWriter(State)?\)`, `^\(\*http2\.requestBody\)`, `^\(\*http2\.serverConn\)\.(writeDataFromHandler|writeFrameFromHandler|writeHeaders|write100ContinueHeaders|newWriterAndRequest|newWriterAndRequestNoBody|newResponseWriter|processData|writeFrameAsync|wroteFrame|runHandler)$`,
 		`^\(\*http2\.stream\)\.(endStream|copyTrailersToHandlerRequest|processTrailerHeaders)$`, `^http2\.(checkWriteHeaderCode|cloneHeader|foreachHeaderElement)$`, `^\(\*http2\.writeQueue\)`, `^\(http2\.FrameWriteRequest\)\.Consume$`},
 	"C10": {`^http2\.(parse|read)`, `^\(\*http2\.Framer\)\.(ReadFrame|readMetaFrame|checkFrameOrder|maxHeaderStringLen|maxHeaderListSize)`, `^\(\*http2\.serverConn\)\.(readFrames|writeFrameAsync|serve|notePanic|runHandler|sendServeMsg|readPreface|processFrameFromReader|setConnState|onSettingsTimer|onIdleTimer|onReadIdleTimer|onShutdownTimer|handlePingTimer)$`,
-		`^\(\*http2\.Server\)\.(ServeConn|serveConn)$`, `^\(\*http2\.stream\)\.(onReadTimeout|onWriteTimeout)$`, `^\(\*http2\.(write[A-Za-z]+|flushFrameWriter|handlerPanicRST)\)`, `^\(http2\.(write[A-Za-z]+|StreamError|flushFrameWriter|handlerPanicRST|write100ContinueHeadersFrame)\)`, `^\(\*http2\.(SettingsFrame|MetaHeadersFrame|HeadersFrame|DataFrame|FrameHeader)\)`, `^http2\.(splitHeaderBlock|terminalReadFrameError|isClosedConnError)`},
+		`^\(\*http2\.Server\)\.(ServeConn|serveConn)$`, `^\(\*http2\.stream\)\.(onReadTimeout|onWriteTimeout)$`, `\)\.(writeFrame|staysWithinBuffer|writeHeaderBlock)$`, `^\(\*http2\.(SettingsFrame|MetaHeadersFrame|HeadersFrame|DataFrame|FrameHeader)\)`, `^http2\.(splitHeaderBlock|terminalReadFrameError|isClosedConnError)`},
 	"C11": {`^\(\*http2\.serverConn\)\.(serve|readFrames|writeFrameAsync|closeAllStreamsOnConnClose|stopShutdownTimer|closeStream|onSettingsTimer|onIdleTimer|onReadIdleTimer|onShutdownTimer|handlePingTimer|sendServeMsg|readPreface|startGracefulShutdown|startGracefulShutdownInternal|goAway|shutDownIn|scheduleFrameWrite|wroteFrame|processHeaders|newStream|runHandler|handlerDone|writeFrameFromHandler|writeDataFromHandler|writeHeaders|noteBodyReadFromHandler)$`,
 		`^\(\*http2\.Server\)\.(ServeConn|serveConn|afterFunc|newTimer|now|markNewGoroutine)$`, `^\(\*http2\.stream\)\.(onReadTimeout|onWriteTimeout)$`, `^\(http2\.timeTimer\)`, `^\(\*http2\.responseWriter\)\.(SetReadDeadline|SetWriteDeadline|CloseNotify|handlerDone)`, `^http2\.(h1ServerKeepAlivesDisabled|configFromServer|fillNetHTTPServerConfig|setConfigDefaults|setDefault)`},
 	"C12": {`^\(\*http2\.(outflow|inflow)\)`, `^http2\.takeInflows$`, `^\(http2\.FrameWriteRequest\)\.Consume$`, `^\(\*http2\.writeQueue\)\.consume$`,
